@@ -5,6 +5,7 @@ CONSTANTS
   SpLen = 3
   ValSet = {0, 1, 2, 3}
   Kinds = {"half_life", "winsor", "spearman"}
+  RampLens = {10}
   Elem <- ElemDef
 INVARIANTS NoUnderflow InRange ResultLaw SpearmanLaw EmitComposite
 PROPERTY Terminates
